@@ -155,6 +155,10 @@ class GateReplacer(Visitor):
         """This happens when the user indexes a qubit register."""
         alias_from = self.visit(qubit.alias_from)
         alias_index = filter_float(self.visit(qubit.alias_index))
+        if not isinstance(alias_from, (Register, Parameter)):
+            # e.g. a number or a single qubit was passed for a parameter
+            # that the macro body indexes
+            raise JaqalError(f"Cannot index {alias_from}: it is not a register")
         return alias_from[alias_index]
 
 
